@@ -38,6 +38,7 @@ func runC16(c *Ctx) {
 	c16VerifiedRefs(c)
 	c16LocalSearchLimit(c)
 	c16ModifiedIncludesUntracked(c)
+	lockPathIsRepoRelative(c, "R2")
 	prep := p.Fn("commands", "(*uploadContext).prepareUpload")
 	rep := p.Fn("commands", "(*uploadContext).ReportErrors")
 	if prep == nil || rep == nil {
